@@ -10,6 +10,7 @@ import (
 	"fmt"
 	"runtime"
 	"sync"
+	"sync/atomic"
 	"time"
 
 	otter "github.com/maypok86/otter/v2"
@@ -47,6 +48,17 @@ func concPolicy(args []string, out *bufio.Writer) {
 				stQueued = append(stQueued, fn)
 				stMu.Unlock()
 			}
+		}
+		// two scripts in seven also expire: reads push the deadline out (ExpiryAccessing) while a ticker goroutine moves an
+		// atomic clock forward, so sweeps, reads that extend deadlines and writes race; the audit is the same (an entry that is
+		// in the table is known to the policies, none is tracked twice or dead)
+		expiring := (i%7 == 2 || i%7 == 5) && !stall
+		var aclk *atomicClock
+		if expiring {
+			aclk = &atomicClock{}
+			aclk.now.Store(1 << 40)
+			o.Clock = aclk
+			o.ExpiryCalculator = slowReadExpiry{ttl: time.Duration(2 << 30)}
 		}
 		// every fifth script is "big": thousands of keys below a large maximum, with a processor count that does not divide the
 		// table length, so that the table grows through the parallel copy while the policy is told about every entry
@@ -95,6 +107,24 @@ func concPolicy(args []string, out *bufio.Writer) {
 					time.Sleep(30 * time.Microsecond)
 				}
 			}()
+			stopTicker := make(chan struct{})
+			tickerDone := make(chan struct{})
+			go func() {
+				defer close(tickerDone)
+				if aclk == nil {
+					return
+				}
+				tr := &rng{s: r.next()}
+				for {
+					select {
+					case <-stopTicker:
+						return
+					default:
+					}
+					aclk.now.Add(int64(1<<29) + int64(tr.intn(1<<31)))
+					time.Sleep(time.Duration(5+tr.intn(40)) * time.Microsecond)
+				}
+			}()
 			for w := 0; w < writers; w++ {
 				wg.Add(1)
 				ws := r.next()
@@ -111,6 +141,9 @@ func concPolicy(args []string, out *bufio.Writer) {
 					for j := 0; j < ops; j++ {
 						k := lr.intn(nkeys)
 						op := lr.intn(10)
+						if expiring && lr.chance(0.25) {
+							op = 8
+						}
 						if stall && op > 6 {
 							op = 0 // writes only: every operation adds an event
 						}
@@ -119,6 +152,14 @@ func concPolicy(args []string, out *bufio.Writer) {
 							c.Set(k, j*16+w)
 						case 6:
 							c.Invalidate(k)
+						case 8:
+							if expiring {
+								// on a present key this is a read made under the key's bucket lock: it parks a sweep that wants
+								// the same bucket while the deadline is being pushed out
+								c.SetIfAbsent(k, j*16+w)
+							} else {
+								c.GetIfPresent(k)
+							}
 						case 7:
 							c.Compute(k, func(old int, found bool) (int, otter.ComputeOp) {
 								if found {
@@ -138,6 +179,8 @@ func concPolicy(args []string, out *bufio.Writer) {
 			wg.Wait()
 			close(stopSweeper)
 			<-sweeperDone
+			close(stopTicker)
+			<-tickerDone
 			// the maximum changes at run time: lowered, raised far above the current size, set back — with reads recorded just
 			// before (they must still reach the policy: nothing may be left in the read buffer at the audit)
 			if !big && !stall && r.chance(0.35) {
@@ -181,4 +224,24 @@ func concPolicy(args []string, out *bufio.Writer) {
 		c.StopAllGoroutines()
 		runtime.GOMAXPROCS(prevProcs)
 	}
+}
+
+// atomicClock: a manual clock that other goroutines may move while the cache reads it
+type atomicClock struct{ now atomic.Int64 }
+
+func (c *atomicClock) NowNano() int64                      { return c.now.Load() }
+func (c *atomicClock) Tick(time.Duration) <-chan time.Time { return make(chan time.Time) }
+
+// slowReadExpiry resets the deadline on every access (like ExpiryAccessing) but takes its time to answer for a read: the
+// window between "this entry looked fresh / due" and "the new deadline is stored" becomes wide enough for another goroutine
+type slowReadExpiry struct{ ttl time.Duration }
+
+func (s slowReadExpiry) ExpireAfterCreate(otter.Entry[int, int]) time.Duration      { return s.ttl }
+func (s slowReadExpiry) ExpireAfterUpdate(otter.Entry[int, int], int) time.Duration { return s.ttl }
+func (s slowReadExpiry) ExpireAfterRead(e otter.Entry[int, int]) time.Duration {
+	if (e.Key+e.Value)%2 == 0 {
+		runtime.Gosched()
+		time.Sleep(60 * time.Microsecond)
+	}
+	return s.ttl
 }
